@@ -638,6 +638,8 @@ var standingAssumptions = []string{
 	"store key-field invariants (an entry under key k has value.F == k) are checked at every raw write of the code under contract (#storeinv@ obligations) and assumed at every read; writers outside the verified set are assumed to go through the same Set accessors",
 	"decoded store values are well typed: machine-integer fields of unmarshal(bytes) lie in their ranges",
 	"ghost function sumDur: its two defining equations plus prefix-independence and monotonicity (inductive consequences) are assumed as axioms",
+	"ghost function refundSum (market.Withdraw): its two defining equations over a snapshot of the Shard store are assumed as axioms (a definition)",
+	"bounded clauses (coverage.bounded, label bounded): decided by executing the real application on a stated finite set of histories; never counted as proved",
 	"ghost axioms of the did contracts: authDids.def and covered.def are definitions; pigeon.cover (pigeonhole) is a theorem proved in /verif/lemmas/Pigeonhole.lean and re-checked with lean on every C17 run; its transcription into the SMT axiom is trusted",
 	"a call-site assertion (at Callee assert ...) is an obligation at the call and an assumption afterwards",
 	"a closure that contains a loop is not inlined but replaced by its write set (coverage.closures_abstracted): accepted only if it writes captured variables and own locals and calls read-only callees; panics and non-termination inside it are not checked",
